@@ -23,7 +23,10 @@ def _as_float_array(data: Any) -> np.ndarray:
     original = np.asarray(data)
     if original.dtype.kind in "USMmV" or (
         original.dtype.kind == "O"
-        and any(isinstance(item, (str, bytes)) for item in original.ravel())
+        and any(
+            isinstance(item, (str, bytes, np.datetime64, np.timedelta64))
+            for item in original.ravel()
+        )
     ):
         raise ValueError(f"Cannot extract numeric data from values of type {original.dtype}.")
     return np.asarray(original, dtype=float)
